@@ -97,7 +97,7 @@ def run_defs(spec, acc):
     # short payloads first: they are where framing goes wrong
     defs.sort(key=lambda d: (d.length if d.length is not None else 99, d.index))
     defs = [d for k, d in enumerate(defs) if k % spec["n"] == spec["i"]]
-    n_payloads = 4 if quick else 60
+    n_payloads = 12 if quick else 60
     addressing = [(0, 0, 255), (7, 255, 0), (3, 17, 239), (6, 253, 254)]
     for d in defs:
         nb = d.length if d.length is not None else (d.total_bits() + 7) // 8
